@@ -201,10 +201,22 @@ def run():
         ev, d = diff_event("r-%d" % j, a, b, diff, patch)
         events.append(ev)
         chk.count((a, b), nontrivial=(a != b))
+    # strings with very long lines (a line of more than 1000 characters is nothing unusual in a data cell): a
+    # character of a run of equal characters deleted / inserted, one character replaced, in the middle of the line
+    nlong = 0
+    for L in (30, 1100):
+        head, tail = "p" * L, "q" * L
+        for mid_a, mid_b in (("AAAA", "AAA"), ("AAA", "AAAA"), ("  ", " "), ("abab", "ab"), ("AXA", "AYA"), ("", "Z")):
+            for wrap in (lambda t: t, lambda t: "first line\n" + t + "\nlast line\n", lambda t: {"s": t + "\n", "n": 1}):
+                a, b = wrap(head + mid_a + tail), wrap(head + mid_b + tail)
+                ev, d = diff_event("long-%d" % nlong, a, b, diff, patch)
+                nlong += 1
+                events.append(ev)
+                chk.count((a, b), nontrivial=True)
     chk.sample({"direction": "code->spec", "a": common.json.loads(common.json.dumps(dec(events[-1]["a"]))),
                 "b": dec(events[-1]["b"]), "d": safe_dec_diff(events[-1].get("d", []))})
     v = common.validate("DiffTrace", common.diff_trace_cfg(), events, batch=400, name="c02")
-    chk.add_validation(v, "DiffTrace on %d exhaustive + %d random generic pairs" % (nexh, nrand))
+    chk.add_validation(v, "DiffTrace on %d exhaustive + %d random generic pairs + %d pairs of strings with long lines" % (nexh, nrand, nlong))
     byid = {ev["tid"]: ev for ev in events}
     for tid, clauses in v.fails.items():
         classify(chk, "C02", byid[tid], clauses, C02_CLAUSES)
